@@ -556,7 +556,8 @@ def families(rng, quick):
     add("grow_copy", [Asg("x", I(1)), ForR("i", [N("a")], [Asg("y", N("x")), Asg("x", Bin("*", N("y"), I(2)))]), Ret(Tup([N("x")]))])
     add("grow_biglit", [Asg("x", I(2 ** 31)), Asg("y", I(-2 ** 31)), Asg("z", I(-2 ** 31 - 1)), Ret(Tup([N("x"), N("y"), N("z"), Bin("*", N("y"), N("y"))]))])
     add("grow_abs", [Asg("x", I(-2 ** 31)), ForR("i", [Bin("&", N("a"), I(3))], [Asg("x", Un("abs", Bin("*", N("x"), N("x"))))]), Ret(N("x"))])
-    add("neg_min", [Asg("x", I(-2 ** 31)), Asg("z", Bin("<<", shield("or", N("x")), I(32))), Asg("w", Un("neg", N("z"))), Ret(Tup([N("w"), Un("abs", N("z")), N("z")]))])
+    add("neg_min", [Asg("x", I(-2 ** 31)), Asg("z", Bin("<<", shield("or", N("x")), I(32))), Asg("w", Un("neg", N("z"))), Ret(Tup([N("w"), N("z")]))])
+    add("abs_min", [Asg("x", I(-2 ** 31)), Asg("z", Bin("<<", shield("or", N("x")), I(32))), Ret(Tup([Un("abs", N("z")), N("z")]))])
     # F10 -- len() / range counters
     add("count_len", [Asg("n", Un("len", N("s"))), Asg("t", I(0)), ForR("i", [N("n")], [Asg("t", Bin("+", N("t"), Bin("*", N("i"), N("i"))))]), Ret(Tup([N("n"), N("t")]))])
     add("count_range3", [Asg("t", I(0)), ForR("i", [I(5), N("a"), I(7)], [Asg("t", Bin("+", N("t"), N("i")))]), Ret(Tup([N("t"), N("i")]))])
